@@ -39,7 +39,11 @@ var oblRe = regexp.MustCompile(`^"?OBL (\d+) `)
 
 // runScript runs one solver on a path script, returns per-seq answers.
 func runScript(sv SolverCfg, file string, perQueryMs int, nobl int) (map[int]string, float64, error) {
-	ctx, cancel := context.WithTimeout(context.Background(), time.Duration(perQueryMs*(nobl+2))*time.Millisecond+20*time.Second)
+	return runScriptCtx(context.Background(), sv, file, perQueryMs, nobl)
+}
+
+func runScriptCtx(parent context.Context, sv SolverCfg, file string, perQueryMs int, nobl int) (map[int]string, float64, error) {
+	ctx, cancel := context.WithTimeout(parent, time.Duration(perQueryMs*(nobl+2))*time.Millisecond+20*time.Second)
 	defer cancel()
 	argv := sv.Cmd(file, perQueryMs)
 	cmd := exec.CommandContext(ctx, argv[0], argv[1:]...)
@@ -153,7 +157,11 @@ func solvePath(ps *PathScript, workDir string, perQueryMs int, onlySolver string
 	if onlySolver == "" || strings.HasPrefix(first.Name, onlySolver) {
 		file := base + "." + first.Name + ".smt2"
 		if err := os.WriteFile(file, []byte(first.Pre+ps.Script), 0o644); err == nil {
-			res, secs, _ := runScript(first, file, perQueryMs, nobl)
+			p1 := perQueryMs
+			if p1 > 3000 {
+				p1 = 3000 // the first pass is the fast one; what it leaves is retried in isolation with the full limit
+			}
+			res, secs, _ := runScript(first, file, p1, nobl)
 			record(first, secs)
 			for _, o := range ps.Obls {
 				if o.Trivial {
@@ -167,7 +175,10 @@ func solvePath(ps *PathScript, workDir string, perQueryMs int, onlySolver string
 			}
 		}
 	}
-	// pass 2: every obligation that is not discharged, isolated, through all back ends
+	// pass 2: every obligation that is not discharged, isolated, raced through all back ends in parallel
+	if ps.Slow {
+		perQueryMs *= 6
+	}
 	for _, o := range ps.Obls {
 		if o.Trivial || o.Status == "unsat" {
 			continue
@@ -176,44 +187,70 @@ func solvePath(ps *PathScript, workDir string, perQueryMs int, onlySolver string
 			continue
 		}
 		iso := isolate(ps.Script, o.Seq)
+		type ans struct {
+			sv   SolverCfg
+			r    string
+			ok   bool
+			secs float64
+			err  error
+		}
+		var cands []SolverCfg
 		for _, sv := range solvers {
 			if onlySolver != "" && !strings.HasPrefix(sv.Name, onlySolver) {
 				continue
 			}
-			file := fmt.Sprintf("%s.o%d.%s.smt2", base, o.Seq, sv.Name)
-			if err := os.WriteFile(file, []byte(sv.Pre+iso), 0o644); err != nil {
+			cands = append(cands, sv)
+		}
+		if o.Kind == "cover" && len(cands) > 1 {
+			cands = cands[:1]
+		}
+		ch := make(chan ans, len(cands))
+		ctx, cancel := context.WithCancel(context.Background())
+		for _, sv := range cands {
+			go func(sv SolverCfg) {
+				file := fmt.Sprintf("%s.o%d.%s.smt2", base, o.Seq, sv.Name)
+				if err := os.WriteFile(file, []byte(sv.Pre+iso), 0o644); err != nil {
+					ch <- ans{sv: sv, err: err}
+					return
+				}
+				ms := perQueryMs
+				if o.Kind == "cover" {
+					ms = 2000
+				}
+				res, secs, err := runScriptCtx(ctx, sv, file, ms, 1)
+				r, ok := res[o.Seq]
+				ch <- ans{sv: sv, r: r, ok: ok, secs: secs, err: err}
+			}(sv)
+		}
+		decided := false
+		for range cands {
+			a := <-ch
+			record(a.sv, a.secs)
+			if decided {
 				continue
 			}
-			ms := perQueryMs
-			if o.Kind == "cover" {
-				ms = 2000
+			if os.Getenv("GOVC_SLOW") != "" && a.secs > 2 {
+				fmt.Fprintf(os.Stderr, "slow: %.1fs %s %s -> %v\n", a.secs, a.sv.Name, o.Name, a.r)
 			}
-			res, secs, err := runScript(sv, file, ms, 1)
-			record(sv, secs)
-			if os.Getenv("GOVC_SLOW") != "" && secs > 2 {
-				fmt.Fprintf(os.Stderr, "slow: %.1fs %s %s -> %v\n", secs, sv.Name, o.Name, res[o.Seq])
-			}
-			r, ok := res[o.Seq]
-			if err != nil && !ok {
+			if a.err != nil && !a.ok {
 				if o.Status == "" {
-					o.Status = "error: " + err.Error()
+					o.Status = "error: " + a.err.Error()
 				}
 				continue
 			}
-			if !ok {
+			if !a.ok {
 				continue
 			}
-			if r == "unsat" || r == "sat" || o.Status == "" || strings.HasPrefix(o.Status, "error") {
-				o.Status = r
-				o.Solver = sv.Name
-				o.Secs = secs
+			if a.r == "unsat" || a.r == "sat" || o.Status == "" || strings.HasPrefix(o.Status, "error") {
+				o.Status = a.r
+				o.Solver = a.sv.Name
+				o.Secs = a.secs
 			}
-			if r == "unsat" || r == "sat" {
-				break
-			}
-			if o.Kind == "cover" {
-				break
+			if a.r == "unsat" || a.r == "sat" {
+				decided = true
+				cancel() // the other back ends are no longer needed
 			}
 		}
+		cancel()
 	}
 }
